@@ -667,6 +667,28 @@ def gen_store(pid, tier, seed, scale, rng, hists, stats):
                     h = with_seq_twins(h)
                 hists.append(h)
                 stats["%s-focused join histories" % focus] += 1
+        if pid in ("C07", "C06"):
+            # masks that live entirely in one top-layer block other than the first (indices >= 64^3): bit sets, alone
+            # or with optional / negated storage members; sequential twin first
+            for _ in range((40 if q else 400) * scale):
+                base = rng.choice([1, 2, 3, 17, 63]) * 262144 + rng.choice([0, 0, 4096 * rng.randrange(60)])
+                bits = sorted(set(base + rng.choice([0, 1, 63, 64, 65, 4095, 4096, 4097, rng.randrange(200000)])
+                                  for _ in range(rng.randint(1, 8))))
+                members = [3, len(bits)] + bits
+                nm = 1
+                h = [(sg.REG, [0]), (wg.CI, [rng.randint(2, 6)])]
+                if rng.random() < 0.5:
+                    members += [5, 0, 0]          # &S0.maybe()
+                    nm += 1
+                if rng.random() < 0.3:
+                    members += [4, 0]            # !&S0
+                    nm += 1
+                kind_arg = [2, rng.choice([1, 2, 4, 8, 32])] if pid == "C07" or rng.random() < 0.5 else [rng.choice([0, 1]), -1]
+                h.append((jg.JOIN, [0, -1, nm] + members))
+                h.append((jg.JOIN, kind_arg + [nm] + members))
+                h.append((sg.DROPW, []))
+                hists.append(h)
+                stats["bit sets inside one high top-layer block"] += 1
     if pid == "C08":
         for sid in range(16):
             for _ in range((12 if q else 150) * scale):
